@@ -474,7 +474,10 @@ class PropertyRun:
             if v['obligation'] in seen:
                 continue
             seen.add(v['obligation'])
-            kf = [k for k in known_here if k['obligation'] == v['obligation']]
+            # a known finding is identified by property / unit / kind / clause hash / file; the line number may shift when
+            # unrelated lines are added above the unit
+            nl = lambda o: re.sub(r':\d+$', '', o)
+            kf = [k for k in known_here if nl(k['obligation']) == nl(v['obligation'])]
             if kf:
                 known_hit.add(v['obligation'])
                 out_lines.append('KNOWN-FINDING: property=%s %s (%s)' % (self.pid, kf[0]['what'], v['obligation']))
@@ -484,7 +487,8 @@ class PropertyRun:
         shutil.rmtree(rdir, ignore_errors=True)
         if real_violations:
             os.makedirs(rdir, exist_ok=True)
-        for v in real_violations:
+        downgraded = []
+        for v in list(real_violations):
             fname = re.sub(r'[^A-Za-z0-9_.@-]', '_', v['obligation']) + '.json'
             path = os.path.join(rdir, fname)
             rep = dict(property=self.pid, obligation=v['obligation'], unit=v['unit'], kind=v['kind'],
@@ -502,11 +506,22 @@ class PropertyRun:
                 rep['note'] = 'found by the bounded probe running the real crate (cargo test --features verif); replay with ./check %s --replay <this file>' % self.pid
             else:
                 self.try_find_input(v, rep)
+            # An inserted proof ASSERTION (a hint inside a body, not a contract clause) that stops being provable on CHANGED
+            # code means "the proof does not go through any more", which by itself is undecided, not a violation -- unless a
+            # concrete failing input exists in this run (for this obligation or from the bounded stand-in).
+            corroborated = rep.get('failing_input') is not None or any(x.get('kind') == 'bounded-probe' for x in real_violations)
+            if v['kind'] == 'assertion' and v.get('identical_to_frozen') is False and not corroborated and not os.environ.get('VT_NO_PROBE'):
+                self.undecided.append('group=%s unit=%s reason=an inserted proof assertion is no longer provable on the changed code and no failing input was found: %s'
+                                      % (v.get('group'), v['unit'], re.sub(r'\s+', ' ', v.get('clause_text') or '')[:160]))
+                downgraded.append(v)
+                continue
             json.dump(rep, open(path, 'w'), indent=1)
             if rep.get('failing_input') is not None:
                 out_lines.append('VIOLATION property=%s replay=%s' % (self.pid, path))
             else:
                 out_lines.append('VIOLATION property=%s replay=%s no-failing-input-found' % (self.pid, path))
+        for v in downgraded:
+            real_violations.remove(v)
         # The verifier could not decide (changed code outside the reach of the transported contracts).  A concrete failing
         # input found by the probe against the REAL crate is still a demonstrated violation: report it with that input.
         # (The probe never turns an undecided run into OK; without a failing input the run stays undecided.)
